@@ -430,6 +430,7 @@ def handle (j : Json) : Json :=
     (if (jarr (jget shape "start_fail")).length > 0 then "+startfail" else "") ++
     (if jstr (jget shape "cancel_at") != "" then "+cancel" else "") ++
     (if jint (jget shape "timeout_ms") > 0 then "+timeout" else "") ++
+    (if jint (jget shape "deadline_ms") > 0 then "+deadline" else "") ++
     (if jint (jget shape "prior_on") > 0 then "+fullnode" else "")
   verdict id agree (Json.mkObj [("observations", obs.length)]) viol cls (obs.length < 2)
 
